@@ -74,6 +74,22 @@ def runOps (T : KindTable) (p : Props String) : List Json → List Json
       match valOfJson v with
       | some x => .str "ok" :: runOps T (setProperty concrete T freshFields p k x) rest
       | none => .str "bad-value" :: runOps T p rest
+    | .arr #[.str "setnone", .str k] =>
+      -- set_property(k, None) is unset_property(k)
+      match unsetProperty p k with
+      | .ok p' => .str "ok" :: runOps T p' rest
+      | .error e => .arr #[.str "err", .str e] :: runOps T p rest
+    | .arr #[.str "setprops", .str k, v] =>
+      match setProperties1 concrete T freshFields p k (valOfJson v) with
+      | .ok p' => .str "ok" :: runOps T p' rest
+      | .error e => .arr #[.str "err", .str e] :: runOps T p rest
+    | .arr #[.str "attrset", .str a, v] =>
+      match (routesOf T.kind).find? (fun r => r.attr == a) with
+      | none => .str "no-route" :: runOps T p rest
+      | some r =>
+        match attrAssign concrete T freshFields p r (valOfJson v) with
+        | .ok p' => .str "ok" :: runOps T p' rest
+        | .error e => .arr #[.str "err", .str e] :: runOps T p rest
     | .arr #[.str "unset", .str k] =>
       match unsetProperty p k with
       | .ok p' => .str "ok" :: runOps T p' rest
